@@ -227,8 +227,22 @@ func (w *World) buildQuery(o *Obligation, g *Gen, uses []string) string {
 				w.getValueTerms(o.Inputs[n], t, &gv)
 			}
 		}
-		if len(gv) > 0 {
-			sb.WriteString("(get-value (" + strings.Join(gv, " ") + "))\n")
+		// only terms over declared symbols can be asked for (an entry-heap component the query never reads is not declared)
+		declared := sb.String()
+		var ask []string
+		for _, t := range gv {
+			ok := true
+			for _, tok := range tokenRe.FindAllString(t, -1) {
+				if strings.HasSuffix(tok, "_0") && (strings.HasPrefix(tok, "H_") || strings.HasPrefix(tok, "G_") || strings.HasPrefix(tok, "M")) && !strings.Contains(declared, "(declare-const "+tok+" ") {
+					ok = false
+				}
+			}
+			if ok {
+				ask = append(ask, t)
+			}
+		}
+		if len(ask) > 0 {
+			sb.WriteString("(get-value (" + strings.Join(ask, " ") + "))\n")
 		}
 	}
 	return sb.String()
